@@ -20,7 +20,11 @@ ROOT = os.path.dirname(os.path.dirname(os.path.abspath(__file__)))
 SEED = "/tmp/seed"
 
 
+ONE_THREAD = {"OMP_NUM_THREADS": "1", "OPENBLAS_NUM_THREADS": "1", "MKL_NUM_THREADS": "1", "NUMEXPR_NUM_THREADS": "1"}
+
+
 def sh(cmd, cwd=None, env=None, timeout=None):
+    env = dict(env if env is not None else os.environ, **ONE_THREAD)          # several evaluations run side by side: no BLAS/OpenMP oversubscription
     p = subprocess.run(cmd, shell=True, cwd=cwd, env=env, capture_output=True, text=True, timeout=timeout)
     return p.returncode, (p.stdout + p.stderr)
 
